@@ -173,7 +173,11 @@ func c10Hex(key []byte) []byte {
 func c10RootContent() (keys, vals [][]byte) {
 	keys = c10RootContents[vs.Choice("content", len(c10RootContents))]
 	vals = make([][]byte, len(keys))
-	vals[0] = vs.BytesN("v0", c10RootLens[vs.Choice("len0", len(c10RootLens))])
+	lens := c10RootLens
+	if vs.Param("reduced") == 1 {
+		lens = []int{7, 29, 30} // 32-byte branch below an extension; 32- and 33-byte one-nibble leaf
+	}
+	vals[0] = vs.BytesN("v0", lens[vs.Choice("len0", len(lens))])
 	if len(keys) > 1 {
 		vals[1] = vs.BytesN("v1", []int{2, 29}[vs.Choice("len1", 2)])
 	}
